@@ -7,6 +7,7 @@ pub mod c01;
 pub mod c02;
 pub mod c03;
 pub mod c04;
+pub mod c06;
 pub mod c07;
 pub mod c09;
 pub mod c10;
@@ -20,6 +21,7 @@ pub fn run(id: &str, tier: Tier, seed: u64) -> Option<i32> {
         "C02" => c02::run(tier, seed),
         "C03" => c03::run(tier, seed),
         "C04" => c04::run(tier, seed),
+        "C06" => c06::run(tier, seed),
         "C07" => c07::run(tier, seed),
         "C09" => c09::run(tier, seed),
         "C10" => c10::run(tier, seed),
